@@ -96,7 +96,9 @@ def fitted_curve(rng, path, enum, variant=0):
            dict(model_key="sneddon_spher_approx", weight_cp=0,
                 method_kws={"max_nfev": 800}),
            dict(model_key="hertz_para", optimal_fit_edelta=True,
-                optimal_fit_num_samples=8, range_x=[-5e-6, 5e-6])]
+                optimal_fit_num_samples=8, range_x=[-5e-6, 5e-6]),
+           # unsuccessful fit (no points in range): all-NaN fit column
+           dict(model_key="hertz_para", range_x=[1e-3, 1.001e-3])]
     kw = kws[variant % len(kws)]
     try:
         idnt.fit_model(**copy.deepcopy(kw))
@@ -246,10 +248,10 @@ def sequence(rec, rng, cid, scratch):
             variant = stored[key][0]
         elif key in stored:
             op = "different-fit"
-            variant = stored[key][0] + int(rng.integers(1, 5))
+            variant = stored[key][0] + int(rng.integers(1, 7))
         else:
             op = "new"
-            variant = int(rng.integers(6))
+            variant = int(rng.integers(7))
         idnt, kw, pipe = fitted_curve(rng, path, enum, variant)
         case = {"id": cid, "kind": "sequence",
                 "history": hist + [[op, path.name, enum, kw, pipe]]}
@@ -272,7 +274,9 @@ def sequence(rec, rng, cid, scratch):
                 rec.event("'different' settings gave a (nearly) identical "
                           "fit (not judged)")
                 if res == "ok":
-                    stored[key] = (variant, user, idnt)
+                    # accepted as "the same curve again": the container
+                    # keeps the stored fit, only the user fields change
+                    stored[key] = (stored[key][0], user, stored[key][2])
                 continue
             if True:
                 rec.check(res == "EXC:ValueError",
